@@ -3,6 +3,7 @@
    rom_analyze_aggregates is regenerated from metrics/mean.py.  Dispatch and "entry = stand-alone metric" for
    user-defined metrics and the other built-ins are tied by the differential of tools/props/C12.py. *)
 From Coq Require Import ZArith Reals String List Bool.
+From TT Require Import model.Experiment proofs.C12_merged.
 From TT Require Import lib.PreludeR genP.ExperimentPairs genR.Aggr genR.Mean model.Experiment
   proofs.C03_C12_experiment proofs.C12_agree.
 Import ListNotations.
@@ -40,9 +41,16 @@ Example C12_nonvacuous : pairs_all [0; 1; 2]%Z = [(0, 1); (0, 2); (1, 2)]%Z /\ p
   /\ guard_raises (pairs_all [0; 1; 2]%Z) false = true.
 Proof. repeat split. Qed.
 
+(* user-defined aggregated metrics receive at least the statistics they declared: the merged request of the experiment
+   (AggrCols.__or__ folded over the metrics) covers each metric's own request - count, mean and variance columns, and the
+   covariance pairs in the sorted order in which they are looked up *)
+Theorem C12_merged_request_covers_each_metric ms s : In (MAggr s) ms -> covers (merged_spec ms) s.
+Proof. exact (merged_spec_covers ms s). Qed.
+
 Print Assumptions C12_pairs_with_control.
 Print Assumptions C12_pairs_with_control_order.
 Print Assumptions C12_pairs_with_control_no_duplicates.
 Print Assumptions C12_all_pairs.
 Print Assumptions C12_guard.
 Print Assumptions C12_entry_depends_only_on_declared_statistics.
+Print Assumptions C12_merged_request_covers_each_metric.
